@@ -241,7 +241,40 @@ def check_C19(ctx):
                             'uncontrolled executions, not by controlled replay', 'TLC, PlusCal translator']}
 
 
-CHECKS = {'C19': check_C19, 'C05': check_C05, 'C15': check_C15, 'C11': check_C11, 'C09': check_C09, 'C10': check_C10, 'C01': check_C01, 'C02': check_C02, 'C03': check_C03, 'C04': check_C04, 'C06': check_C06,
+def check_C13(ctx):
+    from harness import layer_cons
+    res = runner.memo('cons', ctx, lambda: layer_cons.run(ctx))
+    viol = []
+    for layer, part in (('graph', res['graph']), ('proc', res['proc'])):
+        for f in part['fails']:
+            mine = [c for c in f['fails'] if c[0].startswith('C13.')]
+            if mine:
+                g = f.get('g') or f['trace']['g']
+                viol.append({'clause': mine[0][0], 'all_clauses': sorted({c[0] for c in mine}), 'where': '%s layer, event %d' % (layer, mine[0][1]),
+                             'payload': {'layer': layer, 'g': g}})
+    for f in res['idx_fails']:
+        viol.append({'clause': f['fails'][0][0], 'where': 'get_valid_idx_combinations %s' % f['case'], 'payload': {'layer': 'none'}})
+    cov = {'states': res['graph']['states'] + res['proc']['states'] + res['idx_states'],
+           'transitions': res['graph']['transitions'] + res['proc']['transitions'],
+           'traces_validated_against_impl': res['graph']['n_traces'] + res['proc']['n_traces'] + res['idx_cases'],
+           'samples': res['graph']['samples'][:1] + res['proc']['samples'][:1],
+           'evaluations': res['graph']['n_events'] + res['proc']['n_decodes'] + res['idx_rows'],
+           'distinct_nontrivial': res['graph']['nontrivial'],
+           'rule': 'bounded-exhaustive: constraint type x 2-3 member choices x 2-3 (quick) / 2-4 options x placement {all permanent, '
+                   'member nested in another member, first / later member under an option of a third choice, members mutually '
+                   'exclusive} (permutation / non-replacing with fewer options than choices excluded: infeasible by documentation); '
+                   'graph level all orders of taking the choices, processor level both encoders with the whole declared space and the '
+                   'enumeration; linked design-variable nodes (discrete / continuous, permanent / conditional); '
+                   'get_valid_idx_combinations on every index matrix row with <= 3 columns and values -1..2 (quick) / -1..3',
+           'descriptions': res['n_graphs'], 'features': res['proc']['features'], 'index_matrix_cases': res['idx_cases'],
+           'clause_counts_before_attribution': res['proc']['clause_counts'], 'exhaustive': True}
+    return {'level': 'model_checking', 'coverage': cov, 'violations': viol,
+            'assumptions': ['ConsOK in DSGSem.tla: indices = positions in the declared option list, over the members active together',
+                            'UNORDERED_NOREPL with all members permanent is checked as non-decreasing in get_valid_idx_combinations '
+                            '(deliberate, strictness comes from pre-removed options)', 'TLC, CommunityModules Json']}
+
+
+CHECKS = {'C13': check_C13, 'C19': check_C19, 'C05': check_C05, 'C15': check_C15, 'C11': check_C11, 'C09': check_C09, 'C10': check_C10, 'C01': check_C01, 'C02': check_C02, 'C03': check_C03, 'C04': check_C04, 'C06': check_C06,
           'C07': check_C07, 'C14': check_C14, 'C16': check_C16}
 
 
